@@ -370,10 +370,10 @@ def corr_state_povm(ctx, pend, cfg, g, eps):
             for lay, y in layouts(m):
                 pend.add("vecOfDensity", hd + [cl(m), eps], lambda y=y: S.to_vec_from_density_matrix_with_sparsity(c, y), "r",
                          f"{cfg.name}/to_vec_from_density_matrix_with_sparsity/{lab}/{lay}")
-        pend.add("vecOfDensity", hd + [cl(m), eps], lambda m=m: S.to_var_from_density_matrix(c, m, on_para_eq_constraint=False), "r",
-                 f"{cfg.name}/to_var_from_density_matrix/{lab}")
-        pend.add("vecOfDensity", hd + [cl(m), eps], lambda m=m: S.to_var_from_density_matrix(c, m), "r",
-                 f"{cfg.name}/to_var_from_density_matrix(eq)/{lab}", post=lambda mv: mv[1:])
+        pend.add("toVarFromDensity", hd + [cl(m), eps, "0"], lambda m=m: S.to_var_from_density_matrix(c, m, on_para_eq_constraint=False), "r",
+                 f"{cfg.name}/to_var_from_density_matrix(False)/{lab}")
+        pend.add("toVarFromDensity", hd + [cl(m), eps, "1"], lambda m=m: S.to_var_from_density_matrix(c, m), "r",
+                 f"{cfg.name}/to_var_from_density_matrix(True)/{lab}")
     # POVMs with 2..4 outcomes (physical, rank deficient, non-physical)
     for m in (2, 3, 4):
         for lab in ("physical", "rank1", "nonphysical"):
@@ -396,12 +396,15 @@ def corr_state_povm(ctx, pend, cfg, g, eps):
             for i in range(m):
                 pend.add("vecOfDensity", hd + [cl(ms[i]), eps], lambda ms=ms, i=i: P.to_vecs_from_matrices_with_sparsity(c, ms)[i], "r",
                          f"{cfg.name}/to_vecs_from_matrices_with_sparsity[{i}]/{lab}/m{m}")
-                pend.add("vecOfDensity", hd + [cl(ms[i]), eps],
-                         lambda ms=ms, i=i: P.to_var_from_matrices(c, ms, on_para_eq_constraint=False)[i * n:(i + 1) * n], "r",
-                         f"{cfg.name}/to_var_from_matrices[{i}]/{lab}/m{m}")
-            pend.add("vecOfDensity", hd + [cl(ms[m - 2]), eps],
-                     lambda ms=ms: P.to_var_from_matrices(c, ms, on_para_eq_constraint=True)[(m - 2) * n:], "r",
-                     f"{cfg.name}/to_var_from_matrices(eq)[last kept]/{lab}/m{m}")
+            for flag in ("0", "1"):
+                pend.add("toVarFromMatrices", hd + [m, cl(np.array(ms)), eps, flag],
+                         lambda ms=ms, flag=flag: P.to_var_from_matrices(c, ms, on_para_eq_constraint=flag == "1"), "r",
+                         f"{cfg.name}/to_var_from_matrices({flag})/{lab}/m{m}")
+            # a list whose second matrix is not Hermitian: the first failure raises
+            bad = [ms[0], ms[1] + 0.5j * np.eye(d)] + list(ms[2:])
+            pend.add("toVarFromMatrices", hd + [m, cl(np.array(bad)), eps, "1"],
+                     lambda bad=bad: P.to_var_from_matrices(c, bad, on_para_eq_constraint=True), "r",
+                     f"{cfg.name}/to_var_from_matrices(1)/nonhermitian-second/{lab}/m{m}")
 
 
 def corr_gate(ctx, pend, cfg, g, eps):
@@ -1544,13 +1547,18 @@ def run_check(ctx, kind, cfg, args, rep, **kw):
 
 
 PARTIAL = [
-    {"theorem": "QM.C02.kraus_full_roundtrip",
-     "missing": "proved for the complete executable to_kraus_matrices_from_hs (verdict, filter, sort, scaling, phase convention) under "
-                "the explicit contracts of numpy's eigh / sqrt / abs (EighContract, AbsContract: exact kernels, filtered eigenvalues "
-                "exactly 0); the float accuracy of the kernels is not modelled (the correspondence compares the operators elementwise)"},
+    {"theorem": "QM.C02.kraus_full_roundtrip_exact_kernel / kraus_roundtrip_exact_kernel / kraus_channel_preserved_exact_kernel / "
+                "hs_kraus_hs_executed_exact_kernel",
+     "missing": "HS -> Kraus -> HS is proved for the complete executable to_kraus_matrices_from_hs only under EXACT eigh / sqrt / abs "
+                "(EighContract, AbsContract): no floating-point kernel output satisfies these, so for the float run the clause rests on "
+                "the correspondence (operators elementwise + gauge invariant) and on kraus_roundtrip_residual (deviation = Choi residual, "
+                "contract-free); a bound of the residual by the kernels' float errors is not proved"},
+    {"theorem": "QM.C02.*_executed (hs_choi_hs_executed, toVarFromChoi_executed, vec_density_vec_executed, toVarFromMatrices_executed, hsOfKraus_executed)",
+     "missing": "executed round trips hold for entries 0 or >= eps in modulus only (hs_choi_hs_executed_needs_threshold is the "
+                "counter-instance below the threshold); float rounding is not modelled"},
     {"theorem": "QM.C02.toVarFromChoi_roundtrip",
-     "missing": "stated for the value before truncate_hs (toVarFromChoi{Free,Eq}Raw); the executed toVarFromChoi additionally truncates the "
-                "whole HS matrix; forward_is_not_inverse is the regression witness of the former defect D3"},
+     "missing": "Raw form (any star-ring); the executed form is toVarFromChoi_executed; forward_is_not_inverse is the regression "
+                "witness of the former defect D3; the call site is tied to the source by gen_callees"},
     {"theorem": "QM.C02.hs_choi_hs / vec_density_vec",
      "missing": "stated for the values before truncate_hs; truncEntry_spec / truncEntry_real give the exact effect of the truncation "
                 "(identity on real entries of modulus >= eps); float rounding is not modelled"},
